@@ -166,6 +166,21 @@ def main():
             if "Closed under the global context" not in txt and not props.allowed_axioms(txt):
                 broken.append(("axioms", f"{th}: {txt[:300]}"))
 
+    # ---- 1b. thorough tier: the independent checker coqchk re-checks the property's theorem file and
+    #      everything it depends on, and lists the axioms they rely on (must be none)
+    coqchk_res = None
+    if tier == "thorough" and not missing and spec["theorems"]:
+        mods = sorted({"Dig." + th[0] for th in spec["theorems"]})
+        try:
+            r = common.run(["coqchk", "-silent", "-o", "-Q", "theories", "Dig"] + mods, cwd=common.COQ, timeout=3000)
+            txt = r.stdout + r.stderr
+            ok_chk = r.returncode == 0 and "* Axioms: <none>" in txt
+            coqchk_res = dict(modules=mods, ok=ok_chk, summary=txt[txt.find("CONTEXT SUMMARY"):][:600] if "CONTEXT SUMMARY" in txt else txt[-600:])
+            if not ok_chk:
+                broken.append(("coqchk", f"coqchk on {mods}: " + txt[-400:]))
+        except Exception as e:  # timeout
+            broken.append(("coqchk", f"coqchk on {mods} did not finish: {e}"))
+
     # ---- 2. build the harness against /repo's working tree
     ok, hout = common.harness_build()
     fcntl.flock(lockf, fcntl.LOCK_UN)
@@ -525,6 +540,8 @@ def main():
     if reent_cov:
         cov["reentrant_user_code"] = reent_cov
         cov["evaluations"] += reent_cov["histories"]
+    if coqchk_res:
+        cov["coqchk"] = coqchk_res
     if vizpanic_cov:
         cov["visualize_never_panics"] = vizpanic_cov
         cov["evaluations"] += vizpanic_cov["histories"]
